@@ -18,6 +18,9 @@ structure Case where
   alpha : Biogo.Alphabet.Alpha
   gap : UInt8
   mat : List (List Int)
+  la : Array Int            -- the flattened matrix, computed once
+  ri : List Nat             -- alphabet indices of the sequences (meaningful for legal letters)
+  qi : List Nat
   r : List UInt8
   q : List UInt8
   mode : String
@@ -48,7 +51,8 @@ def parseCase (inp : List String) : Option Case :=
     match al, parseAlpha alpha, parseMatrix mat, bytesOfHex r, bytesOfHex q with
     | some (al, cls), some (a, gap), some mat, some r, some q =>
       if ["LL", "LQ", "QL", "A2", "NA"].contains mode then
-        some { al, cls, alpha := a, gap, mat, r, q, mode }
+        some { al, cls, alpha := a, gap, mat, la := mat.flatten.toArray, ri := toIdx a.index r,
+               qi := toIdx a.index q, r, q, mode }
       else none
     | _, _, _, _, _ => none
   | _ => none
@@ -107,9 +111,10 @@ def isPanic (s : String) : Bool := s.startsWith "panic"
 def isErr (s : String) : Bool := s.startsWith "err:"
 
 /-- model observation for mode `LL`: `<resL> <resQ> <fmtL> <fmtQ>` -/
-def modelObsLL (c : Case) : String :=
-  let resL := align c.al (c.call false)
-  let resQ := align c.al (c.call true)
+def modelObsLL (c : Case) (resL : Res) : String :=
+  -- the model's `align` reads the slice types only through `refQ ≠ qryQ`, so the QLetters
+  -- variant of mode LL has the same result as the Letters variant
+  let resQ := resL
   let fmtOf (res : Res) : String :=
     match res with
     | .ok ps =>
@@ -128,9 +133,7 @@ def normPanic (s : String) : String := if isPanic s then "panic" else s
 def normObs (obs : String) : String := " ".intercalate ((tokens obs).map normPanic)
 
 /-- the scoring function and index sequences of a legal case -/
-def Case.S (c : Case) : Matrix := matOf c.mat.flatten.toArray c.mat.length
-def Case.ri (c : Case) : List Nat := toIdx c.alpha.index c.r
-def Case.qi (c : Case) : List Nat := toIdx c.alpha.index c.q
+def Case.S (c : Case) : Matrix := matOf c.la c.mat.length
 
 /-- hypothesis of C08: every gap score is non-positive -/
 def gapsNonPos (c : Case) : Bool :=
